@@ -1,0 +1,13 @@
+//go:build verif
+
+// Contracts for the verifier in /verif (comment-only file; contributes no declarations).
+package streamflow
+
+// The edges a node shows to the walker are its own edge list, in order.
+//@ func (*FlowGraphNode).GetEdges
+//@   prop C04
+//@   requires fgn != nil
+//@   modifies nothing
+//@   loop 1 modifies nothing
+//@   loop 1 invariant[copied] len(edges) == idx1 && forall(k, 0, idx1, edges[k] == box(fgn.edges[k]))
+//@   ensures[same-edges] len(result) == len(fgn.edges) && forall(k, 0, len(fgn.edges), result[k] == box(fgn.edges[k]))
